@@ -1089,3 +1089,153 @@ Qed.
 
 Theorem lq_dead_rejects q x : l_alive q = false -> lq_step_on q x = (q, rejected).
 Proof. intros H. unfold lq_step_on. rewrite H. reflexivity. Qed.
+
+(* =====================================================================================
+   Part 5 — callback consumers (engine qcb): a completion callback that re-enters pop() is an ordinary pop issued
+   in the middle of the push / unblock_pop that resolved it.  Every callback history therefore reaches a state that
+   a plain history reaches too, with the same pushes; all theorems of Part 2 apply to it.
+   ===================================================================================== *)
+Definition q_exec (q : queue) (l : list qop) : queue := snd (q_run_from q l).
+
+Lemma q_exec_app l1 : forall q l2, q_exec q (l1 ++ l2) = q_exec (q_exec q l1) l2.
+Proof.
+  unfold q_exec. induction l1 as [|x l1 IH]; intros q l2; cbn [app q_run_from snd]; [reflexivity|].
+  destruct (q_step q x) as [q1 o]. specialize (IH q1 l2).
+  destruct (q_run_from q1 (l1 ++ l2)) as [os q2]. destruct (q_run_from q1 l1) as [os1 q3]. cbn [snd] in *. exact IH.
+Qed.
+Lemma q_exec_one q x : q_exec q [x] = fst (q_step q x).
+Proof. unfold q_exec. cbn [q_run_from]. destruct (q_step q x). reflexivity. Qed.
+Lemma q_final_exec ops : q_final ops = q_exec q0 ops.
+Proof. reflexivity. Qed.
+
+Lemma q_pop_alive q : alive (fst (q_pop q)) = alive q.
+Proof. unfold q_pop. destruct (items q); reflexivity. Qed.
+Lemma q_pop_step q : alive q = true -> fst (q_step q QPop) = fst (q_pop q).
+Proof. intros A. unfold q_step. rewrite A. cbn [negb]. destruct (q_pop q). reflexivity. Qed.
+Lemma q_push_step q v : alive q = true -> fst (q_step q (QPush v)) = fst (q_push q v).
+Proof. intros A. unfold q_step. rewrite A. cbn [negb]. destruct (q_push q v). reflexivity. Qed.
+Lemma q_unblock_step q e : alive q = true -> fst (q_step q (QUnblockPop e)) = fst (q_unblock_pop q e).
+Proof. intros A. unfold q_step. rewrite A. cbn [negb]. destruct (q_unblock_pop q e). reflexivity. Qed.
+Lemma q_push_alive q v : alive (fst (q_push q v)) = alive q.
+Proof. unfold q_push, q_push_lock. destruct (waiters q); reflexivity. Qed.
+Lemma q_unblock_alive q e : alive (fst (q_unblock_pop q e)) = alive q.
+Proof. unfold q_unblock_pop. destruct (waiters q); reflexivity. Qed.
+
+(* the chain of re-pops is a sequence of plain pops *)
+Lemma cb_chain_plain k : forall q cb, alive q = true ->
+  exists m, fst (cb_chain k q cb) = q_exec q (repeat QPop m) /\ alive (fst (cb_chain k q cb)) = true.
+Proof.
+  induction k as [|k IH]; intros q cb A; cbn [cb_chain].
+  - exists 0%nat. split; [reflexivity|exact A].
+  - destruct (q_pop q) as [q1 id] eqn:E.
+    assert (q1 = fst (q_pop q)) as E1 by (rewrite E; reflexivity).
+    assert (alive q1 = true) as A1 by (rewrite E1, q_pop_alive; exact A).
+    destruct (is_pending (fget (futs q1) id)).
+    + exists 1%nat. cbn [fst repeat]. split; [|exact A1]. rewrite q_exec_one, (q_pop_step q A). exact E1.
+    + destruct (IH q1 cb A1) as (m & EM & AM). exists (S m). split; [|exact AM].
+      cbn [repeat]. change (QPop :: repeat QPop m) with ([QPop] ++ repeat QPop m). rewrite q_exec_app, q_exec_one, (q_pop_step q A), <- E1. exact EM.
+Qed.
+
+Definition c_push_val (x : cop) : list Z := match x with COp (QPush v) => [v] | _ => [] end.
+Definition c_pushed_vals (l : list cop) : list Z := flat_map c_push_val l.
+Definition c_no_destroy (l : list cop) : Prop := Forall (fun x => x <> COp QDestroy) l.
+
+Lemma pushed_vals_pops m : pushed_vals (repeat QPop m) = [].
+Proof. induction m as [|m IH]; [reflexivity|exact IH]. Qed.
+Lemma no_destroy_pops m : no_destroy (repeat QPop m).
+Proof. induction m as [|m IH]; constructor; [reflexivity|exact IH]. Qed.
+Lemma pushed_vals_app a b : pushed_vals (a ++ b) = pushed_vals a ++ pushed_vals b.
+Proof. apply flat_map_app. Qed.
+
+(* one callback step = a short plain history *)
+Lemma cq_step_plain s x : alive (cbase s) = true -> x <> COp QDestroy ->
+  exists l, cbase (fst (cq_step s x)) = q_exec (cbase s) l /\ no_destroy l /\ pushed_vals l = c_push_val x /\
+            alive (cbase (fst (cq_step s x))) = true.
+Proof.
+  intros A ND. unfold cq_step. rewrite A. cbn [negb].
+  assert (forall q1 cb0 (r : bool) (hd : qop), alive q1 = true ->
+            exists m, fst (if r then cq_after_resolve (cbase s) q1 cb0 else (q1, cb0)) = q_exec q1 (repeat QPop m) /\
+                      alive (fst (if r then cq_after_resolve (cbase s) q1 cb0 else (q1, cb0))) = true) as AR.
+  { intros q1 cb0 r _ A1. destruct r; [|exists 0%nat; split; [reflexivity|exact A1]].
+    unfold cq_after_resolve. destruct (head_waiter (cbase s)) as [p|]; [|exists 0%nat; split; [reflexivity|exact A1]].
+    destruct (afind p cb0) as [k|]; [|exists 0%nat; split; [reflexivity|exact A1]]. apply cb_chain_plain. exact A1. }
+  destruct x as [[v| |e| | |k v|k| ]|k|]; cbn [c_push_val]; try congruence;
+    try (exists []; cbn [fst cbase]; repeat split; [constructor|exact A]).
+  - (* push *)
+    destruct (q_push (cbase s) v) as [q1 r] eqn:E.
+    assert (q1 = fst (q_push (cbase s) v)) as E1 by (rewrite E; reflexivity).
+    assert (alive q1 = true) as A1 by (rewrite E1, q_push_alive; exact A).
+    destruct (AR q1 (cbud s) r QPop A1) as (m & EM & AM).
+    destruct (if r then cq_after_resolve (cbase s) q1 (cbud s) else (q1, cbud s)) as [q2 cb]. cbn [fst cbase] in *.
+    exists (QPush v :: repeat QPop m). repeat split.
+    + change (QPush v :: repeat QPop m) with ([QPush v] ++ repeat QPop m). rewrite q_exec_app, q_exec_one, (q_push_step _ _ A), <- E1. exact EM.
+    + constructor; [reflexivity|apply no_destroy_pops].
+    + cbn [pushed_vals flat_map push_val app]. fold (pushed_vals (repeat QPop m)). rewrite pushed_vals_pops. reflexivity.
+    + exact AM.
+  - (* pop *)
+    unfold q_step. rewrite A. cbn [negb]. destruct (q_pop (cbase s)) as [q1 id] eqn:E. cbn [fst cbase].
+    exists [QPop]. repeat split; [|constructor; [reflexivity|constructor]|].
+    + rewrite q_exec_one, (q_pop_step _ A), E. reflexivity.
+    + assert (q1 = fst (q_pop (cbase s))) as -> by (rewrite E; reflexivity). rewrite q_pop_alive. exact A.
+  - (* unblock_pop *)
+    destruct (q_unblock_pop (cbase s) e) as [q1 r] eqn:E.
+    assert (q1 = fst (q_unblock_pop (cbase s) e)) as E1 by (rewrite E; reflexivity).
+    assert (alive q1 = true) as A1 by (rewrite E1, q_unblock_alive; exact A).
+    destruct (AR q1 (cbud s) r QPop A1) as (m & EM & AM).
+    destruct (if r then cq_after_resolve (cbase s) q1 (cbud s) else (q1, cbud s)) as [q2 cb]. cbn [fst cbase] in *.
+    exists (QUnblockPop e :: repeat QPop m). repeat split.
+    + change (QUnblockPop e :: repeat QPop m) with ([QUnblockPop e] ++ repeat QPop m). rewrite q_exec_app, q_exec_one, (q_unblock_step _ _ A), <- E1. exact EM.
+    + constructor; [reflexivity|apply no_destroy_pops].
+    + cbn [pushed_vals flat_map push_val app]. fold (pushed_vals (repeat QPop m)). apply pushed_vals_pops.
+    + exact AM.
+  - (* size *)
+    unfold q_step. rewrite A. cbn [negb fst cbase]. exists []. repeat split; [constructor|exact A].
+  - (* callback pop *)
+    destruct (q_pop (cbase s)) as [q1 id] eqn:E.
+    assert (q1 = fst (q_pop (cbase s))) as E1 by (rewrite E; reflexivity).
+    assert (alive q1 = true) as A1 by (rewrite E1, q_pop_alive; exact A).
+    destruct (is_pending (fget (futs q1) id)).
+    + cbn [fst cbase]. exists [QPop]. repeat split; [|constructor; [reflexivity|constructor]|exact A1].
+      rewrite q_exec_one, (q_pop_step _ A). exact E1.
+    + destruct (cb_chain_plain k q1 (cbud s) A1) as (m & EM & AM).
+      destruct (cb_chain k q1 (cbud s)) as [q2 cb]. cbn [fst cbase] in *.
+      exists (QPop :: repeat QPop m). repeat split.
+      * change (QPop :: repeat QPop m) with ([QPop] ++ repeat QPop m). rewrite q_exec_app, q_exec_one, (q_pop_step _ A), <- E1. exact EM.
+      * constructor; [reflexivity|apply no_destroy_pops].
+      * cbn [pushed_vals flat_map push_val app]. fold (pushed_vals (repeat QPop m)). apply pushed_vals_pops.
+      * exact AM.
+Qed.
+
+Definition cq_final (l : list cop) : cqueue := snd (cq_run_from cq0 l).
+
+Lemma cq_run_plain l : forall s, alive (cbase s) = true -> c_no_destroy l ->
+  exists ops, cbase (snd (cq_run_from s l)) = q_exec (cbase s) ops /\ no_destroy ops /\ pushed_vals ops = c_pushed_vals l.
+Proof.
+  induction l as [|x l IH]; intros s A ND; cbn [cq_run_from c_pushed_vals flat_map].
+  - exists []. repeat split. constructor.
+  - inversion ND as [|x' l' Hx Hl]; subst.
+    destruct (cq_step_plain s x A Hx) as (l1 & E1 & N1 & P1 & A1).
+    destruct (cq_step s x) as [s1 o]. cbn [fst] in *.
+    destruct (IH s1 A1 Hl) as (l2 & E2 & N2 & P2).
+    destruct (cq_run_from s1 l) as [os s2]. cbn [snd] in *.
+    exists (l1 ++ l2). repeat split.
+    + rewrite q_exec_app, <- E1. exact E2.
+    + apply Forall_app. split; assumption.
+    + rewrite pushed_vals_app, P1, P2. reflexivity.
+Qed.
+
+(* every destruction-free history with callback consumers reaches a state that a plain destruction-free history with the
+   same pushes reaches *)
+Theorem cq_reaches_plain_state l : c_no_destroy l ->
+  exists ops, cbase (cq_final l) = q_final ops /\ no_destroy ops /\ pushed_vals ops = c_pushed_vals l.
+Proof. intros ND. exact (cq_run_plain l cq0 eq_refl ND). Qed.
+
+(* hence conservation and order hold with callback consumers that re-enter the queue from their completion callback *)
+Theorem cq_conservation_order l : c_no_destroy l ->
+  c_pushed_vals l = delivered (futs (cbase (cq_final l))) ++ items (cbase (cq_final l)) /\
+  (items (cbase (cq_final l)) = [] \/ waiters (cbase (cq_final l)) = []).
+Proof.
+  intros ND. destruct (cq_reaches_plain_state l ND) as (ops & E & N & P). rewrite E, <- P. split.
+  - apply q_conservation_order. exact N.
+  - apply q_not_both_nonempty.
+Qed.
